@@ -158,7 +158,10 @@ where
                 self.inner.restore_active_blob().await?;
             },
             OperationType::TryDumpBlobIndexes => {
-                self.try_run_old_blob_indexes_dump_task().await;
+                // A dump task in progress may already be past the blob this request is about: defer the dump instead of dropping it
+                if !self.try_run_old_blob_indexes_dump_task().await {
+                    self.defer_blob_indexes_dump().await?;
+                }
             },
             OperationType::TryFsyncData => {
                 self.try_run_fsync_task().await;
